@@ -7,7 +7,7 @@ clear under a class test - `PyErr_ExceptionMatches(PyExc_X)` or
 cannot be activated: ReadConflictError / POSKeyError / MemoryError, a
 RuntimeError from a concurrent change) still reaches the caller.  30 of the 43
 sites of a translation unit follow it.  Rule: every `PyErr_Clear()` is
-dominated by a class test whose failing edge cannot reach the clear, or is
+reachable only through the success edge of a class test (the success edges removed, it is unreachable from the entry and from behind another clear), or is
 followed on every path by the raising of another exception before any return
 (the error is replaced, still reported), or every path from it returns
 Py_NotImplemented (operand without __iter__ in the in-place operators: the
@@ -98,6 +98,43 @@ def _answers_not_implemented(nd):
     return found
 
 
+def _success_label(g):
+    """label of the edge on which a class test of the pending exception
+    succeeded, or None when the branch is not such a test (the CFG splits
+    &&, || and ?: into one branch node per operand)"""
+    if g.kind != "branch" or g.e is None:
+        return None
+    e = strip(g.e)
+    neg = False
+    while e is not None and e.k == "UnaryOperator" and e.v == "!":
+        neg = not neg
+        e = strip(e.kids[0])
+    if e is None or e.k != "CallExpr" or callee(e)[1] not in CLASS_TESTS:
+        return None
+    return "F" if neg else "T"
+
+
+def _unguarded_reach(cfg, live):
+    """nodes reachable from the function's entry - or from just behind a clear
+    (the next exception is another one) - along paths on which no class test
+    succeeded: the success edges of the class tests are removed.  A clear in
+    this set discards an exception of unknown class.  The shape of the test
+    (if/else chain, early return on the negation, De Morgan) does not matter."""
+    work = [cfg.entry] + [s for n in live if n.kind != "branch" and _is_clear(n.e) for _, s in n.succ]
+    seen = set()
+    while work:
+        n = work.pop()
+        if n.id in seen:
+            continue
+        seen.add(n.id)
+        ok = _success_label(n)
+        for l, s in n.succ:
+            if ok is not None and l == ok:
+                continue
+            work.append(s)
+    return seen
+
+
 def _is_clear(e):
     return e is not None and any(n.k == "CallExpr" and callee(n) == ("fn", "PyErr_Clear") for n in e.walk())
 
@@ -112,28 +149,11 @@ def analyse_tu(tu):
         cfg = CFG(fn)
         dom = cfg.dominators()
         live = cfg.live_nodes()
+        unguarded = _unguarded_reach(cfg, live)
         for nd in live:
             if nd.kind == "branch" or not _is_clear(nd.e):
                 continue
-            ok = False
-            for g in live:
-                if g.kind != "branch" or g.e is None or g.id not in dom.get(nd.id, ()) or g.id == nd.id:
-                    continue
-                t = text(g.e)
-                if not any(c in t for c in CLASS_TESTS):
-                    continue
-                e = strip(g.e)
-                neg = False
-                while e is not None and e.k == "UnaryOperator" and e.v == "!":
-                    neg = not neg
-                    e = strip(e.kids[0])
-                if e is None or e.k != "CallExpr" or callee(e)[1] not in CLASS_TESTS:
-                    continue
-                fail_label = "T" if neg else "F"
-                fs = [s for l, s in g.succ if l == fail_label]
-                if fs and nd.id not in _reach(fs[0], g.id):
-                    ok = True
-                    break
+            ok = nd.id not in unguarded
             if ok:
                 guarded += 1
                 continue
